@@ -35,7 +35,7 @@ func init() {
 		Race:      true,
 		RaceFiles: []string{"ramfs/dirent.go", "ramfs/inode.go", "ramfs/filesys.go"},
 		Shards:    shards(8, 16),
-		Timeout:   timeouts(4*time.Minute, 40*time.Minute),
+		Timeout:   timeouts(12*time.Minute, 90*time.Minute),
 		MinEvals:  1000,
 		Required:  []string{"op:walk", "op:walk-dotdot", "op:create", "op:remove", "op:read", "op:write", "op:list", "op:truncate", "extreme_offset_calls", "validator_runs", "dotdot_through_removed_dir", "concurrent_rounds", "register_histories_checked"},
 		Run:       runC18,
